@@ -244,6 +244,39 @@ func endMS(in c06in) int64 {
 	return in.NowMS
 }
 
+// numGuardDetected: does the $Number$ branch of splitPeriod refuse a period that is no whole number of
+// segments of the adaptation set at hand (repair "guard per adaptation set")? Read from livempd.go: the
+// `case segmentNumber:` block of splitPeriod returns the typed error errPeriodDuration.
+var numGuardDetected bool
+
+func detectNumGuard() (bool, string) {
+	data, err := os.ReadFile(filepath.Join(app.VerifC16SourceDir(), "livempd.go"))
+	if err != nil {
+		return false, "source not readable: " + err.Error()
+	}
+	src := string(data)
+	i := strings.Index(src, "\nfunc splitPeriod(")
+	if i < 0 {
+		return false, "splitPeriod not found"
+	}
+	body := src[i+1:]
+	if j := strings.Index(body, "\nfunc "); j >= 0 {
+		body = body[:j]
+	}
+	k := strings.Index(body, "case segmentNumber:")
+	if k < 0 {
+		return false, "no $Number$ branch in splitPeriod"
+	}
+	blk := body[k+len("case segmentNumber:"):]
+	if j := strings.Index(blk, "\n\t\t\tcase "); j >= 0 {
+		blk = blk[:j]
+	}
+	if strings.Contains(blk, "errPeriodDuration{") {
+		return true, "the $Number$ branch of splitPeriod returns errPeriodDuration: guard per adaptation set"
+	}
+	return false, "the $Number$ branch of splitPeriod has no guard of its own"
+}
+
 type xseg struct {
 	T, D uint64
 	Nr   int64
@@ -339,7 +372,20 @@ func (lr *liveRun) oracle(id string, in c06in, a *lib.TLAsset, sm *m.MPD, multi 
 		return
 	}
 	if multi.Status != 200 {
-		lr.fail(id, fmt.Sprintf("status-%d", multi.Status), fmt.Sprintf("accepted periods-per-hour value %d answered %d %s", in.PPH, multi.Status, string(multi.Body)), in)
+		// a period that is no whole number of segments of some $Number$ template of the MPD may also be rejected
+		rejectedForAS := false
+		if multi.Status == 400 && strings.Contains(string(multi.Body), "not a multiple of segment duration") {
+			for _, sas := range sm.Periods[0].AdaptationSets {
+				if sst := sas.SegmentTemplate; sst != nil && sst.SegmentTimeline == nil && sst.Duration != nil && *sst.Duration > 0 {
+					if (P*int64(sst.GetTimescale()))%int64(*sst.Duration) != 0 {
+						rejectedForAS = true
+					}
+				}
+			}
+		}
+		if !rejectedForAS {
+			lr.fail(id, fmt.Sprintf("status-%d", multi.Status), fmt.Sprintf("accepted periods-per-hour value %d answered %d %s", in.PPH, multi.Status, string(multi.Body)), in)
+		}
 		return
 	}
 	mm, err := m.MPDFromBytes(multi.Body)
@@ -676,7 +722,7 @@ func (lr *liveRun) live(id int, in c06in, a *lib.TLAsset, inQuantifier bool) (st
 	if snr < 0 {
 		snr = 0
 	}
-	term := fmt.Sprintf("CLive %d %s %s %d %s %s %d %d %d %s %d\n  [%s]\n  %d %s %s", id, lib.Cbool(widenDetected), lib.Zs(in.PPH), segMS, coqMode(in.Mode), lib.Cbool(in.Cont), in.StartS, snr, in.NowMS, stop, tsbdMS,
+	term := fmt.Sprintf("CLive %d %s %s %s %d %s %s %d %d %d %s %d\n  [%s]\n  %d %s %s", id, lib.Cbool(numGuardDetected), lib.Cbool(widenDetected), lib.Zs(in.PPH), segMS, coqMode(in.Mode), lib.Cbool(in.Cont), in.StartS, snr, in.NowMS, stop, tsbdMS,
 		strings.Join(ases, "; "), status, periods, pub)
 	return term, true
 }
@@ -752,6 +798,8 @@ func run(c *lib.Ctx) error {
 	}
 	var how string
 	widenDetected, how = detectWiden()
+	c.Res.Notes = append(c.Res.Notes, "source read: "+how)
+	numGuardDetected, how = detectNumGuard()
 	c.Res.Notes = append(c.Res.Notes, "source read: "+how)
 	rng := rand.New(rand.NewSource(c.Seed))
 	lr := &liveRun{c: c, ls: ls, stopSig: map[string]string{}, stable: map[string]int64{}, distinct: map[string]bool{}, rng: rng}
@@ -1069,6 +1117,90 @@ func run(c *lib.Ctx) error {
 			}
 		}
 	}
+	// generated layouts of the catalogue (lib.GenCatalogue): representations with different numbers of
+	// segments per loop, a first segment of exactly the mean duration, a 10 MHz timescale
+	genNames := map[string]bool{"g_mixed_n": true, "g_mixed_n2": true, "g_avgfirst_tl": true, "g_10mhz_tl": true}
+	if root, err := os.MkdirTemp("", "c06gen"); err == nil {
+		defer os.RemoveAll(root)
+		var gas []*lib.TLAsset
+		for _, l := range lib.GenCatalogue() {
+			if !genNames[l.Asset.Name] || l.Class != "ok" {
+				continue
+			}
+			if err := lib.WriteAsset(root, l.Asset); err != nil {
+				return fmt.Errorf("WriteAsset %s: %w", l.Asset.Name, err)
+			}
+			// the reference representation: first video in the order of the ids
+			ri := -1
+			for i, r := range l.Asset.Reps {
+				if r.Kind == "video" && (ri < 0 || r.ID < l.Asset.Reps[ri].ID) {
+					ri = i
+				}
+			}
+			if ri < 0 {
+				continue
+			}
+			r := l.Asset.Reps[ri]
+			vr := &lib.VodRep{ID: r.ID, Timescale: int64(r.Timescale), IsVideo: true}
+			for k := 0; k < r.N(); k++ {
+				vr.Segs = append(vr.Segs, lib.VodSeg{Start: int64(r.Start(k)), End: int64(r.End(k)), Nr: int64(r.FirstNr() + k)})
+			}
+			mpdName := l.Asset.MPDName
+			if mpdName == "" {
+				mpdName = "Manifest.mpd"
+			}
+			ta := &lib.TLAsset{Path: l.Asset.Name, MPD: mpdName, Reps: []*lib.TLRep{{VodRep: vr, Kind: "video", Ext: ".m4s"}}}
+			ta.RefTS, ta.RefDur = vr.Timescale, vr.Duration()
+			ta.LoopMS = 1000 * vr.Duration() / vr.Timescale
+			gas = append(gas, ta)
+		}
+		gls, err := lib.NewLivesim(root, nil)
+		if err != nil {
+			return fmt.Errorf("generated vodroot: %w", err)
+		}
+		glr := &liveRun{c: c, ls: gls, stopSig: map[string]string{}, stable: lr.stable, distinct: lr.distinct, rng: rng}
+		nG := 3
+		if c.Thorough() {
+			nG = 12
+		}
+		for _, a := range gas {
+			N := int64(len(a.Ref().Segs))
+			segMS := (a.RefDur*1000 + a.RefTS*N/2) / (a.RefTS * N)
+			nAcc, nRej := 0, 0
+			for _, pph := range []int64{60, 300, 900, 1200, 1800, 30, 3600, 7} {
+				P := 3600 / pph
+				accepted := (P*1000)%segMS == 0
+				if (accepted && nAcc >= 3) || (!accepted && nRej >= 1) {
+					continue
+				}
+				if accepted {
+					nAcc++
+				} else {
+					nRej++
+				}
+				for _, mode := range modes {
+					for k := 0; k < nG; k++ {
+						b := int64(1+rng.Intn(40)) * P * 1000
+						offs := []int64{-1, 0, 1, segMS, 60000, 60001, a.LoopMS, rng.Int63n(P * 1000)}
+						tsbd := []int64{-1, -1, 10, 1}[rng.Intn(4)]
+						in := c06in{Kind: "live", Asset: a.Path, MPD: a.MPD, Mode: mode, PPH: pph, Tsbd: tsbd, Snr: -1, Cont: rng.Intn(3) == 0,
+							NowMS: b + offs[rng.Intn(len(offs))], Instant: "generated-layout"}
+						glr.fetchAll = k == 0
+						term, ok := glr.live(id, in, a, true)
+						c.Count("live/" + mode + "/generated:" + a.Path)
+						if ok {
+							terms = append(terms, term)
+						}
+						id++
+						if !accepted {
+							break
+						}
+					}
+				}
+			}
+		}
+		lr.fetched += glr.fetched
+	}
 	nLive := id
 
 	// ---- L2: reduceS
@@ -1112,7 +1244,7 @@ func run(c *lib.Ctx) error {
 		if si.StartNr != nil {
 			snr = *si.StartNr
 		}
-		terms = append(terms, fmt.Sprintf("CSplit %d %s %s %d %s %s %s %s %s %s\n  [%s]\n  %d %s", id, lib.Cbool(widenDetected), pph, si.SegDurMS, coqMode(si.Mode), lib.Cbool(si.Cont),
+		terms = append(terms, fmt.Sprintf("CSplit %d %s %s %s %d %s %s %s %s %s %s\n  [%s]\n  %d %s", id, lib.Cbool(numGuardDetected), lib.Cbool(widenDetected), pph, si.SegDurMS, coqMode(si.Mode), lib.Cbool(si.Cont),
 			lib.Zs(int64(si.StartTimeS)*1000), lib.Zs(int64(snr)), lib.Zs(int64(si.StartTimeMS)), lib.Zs(int64(si.NowMS)),
 			strings.Join(ases, "; "), st, ps))
 		id++
@@ -1498,7 +1630,20 @@ func oracleSplit(c *lib.Ctx, id string, si splitIn, st int) {
 		if notMultiple && st != 400 {
 			c.Fail(id, "reject:accepted", fmt.Sprintf("splitPeriod: period duration %d s is not a multiple of the segment duration %d ms but the result is %d", 3600/pphv, si.SegDurMS, st), c06in{Kind: "split", Split: &si})
 		}
-		if !notMultiple && st == 400 {
+		// a $Number$ template whose own duration does not divide the period may be refused as well
+		asMisaligned := false
+		for _, as := range si.AS {
+			if (si.Mode == "number" || as.ContentType == "image") && as.Dur != nil && *as.Dur > 0 {
+				ts := int64(1)
+				if as.TS != nil {
+					ts = int64(*as.TS)
+				}
+				if (int64(3600/pphv)*ts)%int64(*as.Dur) != 0 {
+					asMisaligned = true
+				}
+			}
+		}
+		if !notMultiple && st == 400 && !asMisaligned {
 			c.Fail(id, "reject:rejected", fmt.Sprintf("splitPeriod: period duration %d s is a multiple of the segment duration %d ms but was rejected", 3600/pphv, si.SegDurMS), c06in{Kind: "split", Split: &si})
 		}
 	}
